@@ -1,4 +1,4 @@
-from api import H, prop, mut, claim
+from api import H, prop, mut, claim, SHARED
 F = "harness/C01_fibre.c"
 STUB = ["handle_atomic_runq:handle_atomic_runq_contract"]
 FP = ["fibre_scheduler_next.function_pointer_call.1/verif_body"]
@@ -97,3 +97,35 @@ mut("C01", "kill-ignores-atomic-requests", [("librfn/fibre.c", "\tbool res = fal
 mut("C02", "duetime-cmp-linear", [("librfn/fibre.c", "\treturn f1->duetime - f2->duetime;", "\treturn f1->duetime < f2->duetime ? -1 : f1->duetime > f2->duetime;")], r"C02", skip_tests=True)
 mut("C02", "timerq-strictly-before", [("librfn/fibre.c", "cyclecmp32(timeout_fibre->duetime, kernel.now) <= 0) {", "cyclecmp32(timeout_fibre->duetime, kernel.now) < 0) {")], r"C02", skip_tests=True)
 mut("C02", "timeout-true-only-when-past", [("librfn/fibre.c", "\tif (cyclecmp32(duetime, kernel.now) <= 0)\n\t\treturn true;", "\tif (cyclecmp32(duetime, kernel.now) < 0)\n\t\treturn true;")], r"C02", skip_tests=True)
+
+# ---------------------------------------------------------------------------------------------------- C06 / C03 interruption
+G = "harness/C06_fibre_irq.c"
+def irq(nf, pmax, amax, tiers, timeout):
+    d = ["-DNF=%d" % nf, "-DPMAX=%d" % pmax, "-DAMAX=%d" % amax]
+    us = ["list_contains.0:%d" % (nf + 1), "handle_timerq.0:%d" % (nf + 1), "list_insert_sorted.0:%d" % (nf + 1), "messageq_claim.0:%d" % (amax + 2)]
+    b = "pool of %d fibres, at most %d requests pending at entry and at most %d interrupt-context requests arriving during the call (at any of its atomic operations)" % (nf, pmax, amax)
+    out = []
+    for a in range(nf + 1):
+        for q in range(nf + 1 - a):
+            dd = d + ["-DFIX_NRQ=%d" % a, "-DFIX_NTQ=%d" % q]
+            tag = "_f%d_p%d_a%d_rq%d_tq%d" % (nf, pmax, amax, a, q)
+            out += [
+              H("irq_handle_atomic_runq" + tag, G, "h_irq_drain", ["handle_atomic_runq", "make_runnable", "messageq_receive", "messageq_release"], defs=dd, shadow=True, unwind=12,
+                unwindset=us + ["handle_atomic_runq.0:%d" % (pmax + amax + 1)], timeout=timeout, tiers=tiers, solvers=("cadical",), bounded=b, replayable=False,
+                note="thread-modular query (interrupt handlers fire inside the call): no native replay"),
+              H("irq_scheduler_next" + tag, G, "h_irq_next", ["fibre_scheduler_next", "get_next_wakeup", "messageq_empty", "update_current_state", "handle_timerq"], defs=dd, shadow=True, unwind=12,
+                unwindset=us, replace_calls=["handle_atomic_runq:handle_atomic_runq_irq_contract"], restrict_fp=FP, timeout=timeout, tiers=tiers, solvers=("cadical",), bounded=b, replayable=False,
+                note="thread-modular query (interrupt handlers fire inside the call): no native replay"),
+            ]
+            if a == 0 and q == 0:
+                out += [
+                  H("irq_fibre_run_atomic_f%d_p%d_a%d" % (nf, pmax, amax), G, "h_irq_run_atomic", ["fibre_run_atomic", "messageq_claim", "messageq_send", "add_taint"], defs=d + ["-DFIX_NRQ=1", "-DFIX_NTQ=1"], shadow=True,
+                    unwind=12, unwindset=us, timeout=timeout, tiers=tiers, solvers=("cadical",), bounded=b, replayable=False, note="thread-modular query: no native replay"),
+                  H("irq_fibre_run_atomic_full_f%d_a%d" % (nf, amax), G, "h_irq_run_atomic", ["fibre_run_atomic", "messageq_claim", "add_taint"], defs=["-DNF=%d" % nf, "-DPMAX=8", "-DAMAX=%d" % amax, "-DFIX_NRQ=1", "-DFIX_NTQ=0"], shadow=True,
+                    unwind=12, unwindset=us, timeout=timeout, tiers=tiers, solvers=("cadical",), bounded="up to 8 requests pending at entry (the full queue), %d arrivals" % amax, replayable=False, note="thread-modular query: no native replay"),
+                  H("irq_fibre_eventq_send_f%d_a%d" % (nf, amax), G, "h_irq_eventq_send", ["fibre_eventq_send", "fibre_eventq_claim", "fibre_eventq_receive", "fibre_eventq_release", "fibre_eventq_init", "fibre_run_atomic"],
+                    defs=d + ["-DFIX_NRQ=1", "-DFIX_NTQ=1"], shadow=True, unwind=12, unwindset=us, timeout=timeout, tiers=tiers, solvers=("cadical",), bounded=b, replayable=False, note="thread-modular query: no native replay"),
+                ]
+    return out
+
+SHARED.update(sched_quick=Q, sched_thorough=T, irq=irq, TRUST=TRUST, ASSUME=ASSUME, EXPL=EXPL, mc=_mc)
